@@ -2,6 +2,7 @@
 
 import ast
 
+from ..common import inline_private_model_helpers
 from ..core import AnalysisError, unparse
 from ..ir import Walker, root_object, show, subterms, write_summaries
 from ..rules_ift import Rep
@@ -38,7 +39,7 @@ def shares_model(t) -> bool:
 
 def check_save(rep, repo):
     fi = repo.need_method("OPF", "save")
-    w = Walker(repo, fi, self_class="OPF", inline=lambda f: False)
+    w = Walker(repo, fi, self_class="OPF", inline=inline_private_model_helpers)
     dumps = [e for e in w.events if e.kind == "call" and e.name in ("pickle.dump", "pickle.dumps")]
     ok = len(dumps) == 1 and dumps[0].args[:1] == (("self",),)
     rep.fn("SAVE-self", fi, "save pickles the model object itself", ok,
@@ -64,7 +65,7 @@ def check_save(rep, repo):
 
 def check_load(rep, repo):
     fi = repo.need_method("OPF", "load")
-    w = Walker(repo, fi, self_class="OPF", inline=lambda f: False)
+    w = Walker(repo, fi, self_class="OPF", inline=inline_private_model_helpers)
     loads = [e for e in w.events if e.kind == "call" and e.name == "pickle.load"]
     ok = len(loads) == 1
     rep.fn("LOAD-read", fi, "load reads one pickled object", ok, f"{len(loads)} pickle.load call(s)")
